@@ -125,32 +125,36 @@ def strip_cond2(fn, nid, follow=True):
 _defs_cache = {}
 
 
-def local_defs(fn, name):
-    """all definitions (decl init / assignment rhs node ids, or None for unknown writes) of a local variable"""
-    key = (id(fn), name)
+def local_defs(fn, name, vid=None):
+    """all definitions (decl init / assignment rhs node ids, or None for unknown writes) of a local variable; with vid, only those of that
+    very variable (two locals of the same name in different scopes are numbered apart by the plugin)"""
+    key = (id(fn), name, vid)
     if key in _defs_cache:
         return _defs_cache[key]
+
+    def same(n_):
+        return vid is None or n_.get("vid") is None or n_.get("vid") == vid
     defs = []
     for b, i, e, n in fn.events(live_only=True):
         if n["k"] == "decl":
             for v in n["vars"]:
-                if v["name"] == name and "init" in v:
+                if v["name"] == name and "init" in v and same(v):
                     defs.append(v.get("init"))
         elif n["k"] == "bin" and n["op"].endswith("=") and n["op"] not in ("==", "!=", "<=", ">="):
             c = fn.kids(e)
-            if c and fn.nodes[c[0]]["k"] == "ref" and fn.nodes[c[0]].get("name") == name and fn.nodes[c[0]].get("dk") == "local":
+            if c and fn.nodes[c[0]]["k"] == "ref" and fn.nodes[c[0]].get("name") == name and fn.nodes[c[0]].get("dk") == "local" and same(fn.nodes[c[0]]):
                 defs.append(c[1] if n["op"] == "=" else None)
         elif n["k"] == "call" and n.get("callee", "").endswith("operator=") and n.get("member"):
             c = fn.kids(e)
-            if c and fn.nodes[c[0]]["k"] == "ref" and fn.nodes[c[0]].get("name") == name and fn.nodes[c[0]].get("dk") == "local":
+            if c and fn.nodes[c[0]]["k"] == "ref" and fn.nodes[c[0]].get("name") == name and fn.nodes[c[0]].get("dk") == "local" and same(fn.nodes[c[0]]):
                 defs.append(c[1] if len(c) > 1 else None)
         elif n["k"] == "un" and n["op"] in ("++", "--"):
             c = fn.kids(e)
-            if c and fn.nodes[c[0]]["k"] == "ref" and fn.nodes[c[0]].get("name") == name:
+            if c and fn.nodes[c[0]]["k"] == "ref" and fn.nodes[c[0]].get("name") == name and same(fn.nodes[c[0]]):
                 defs.append(None)
         elif n["k"] == "un" and n["op"] == "&":
             c = fn.kids(e)
-            if c and fn.nodes[c[0]]["k"] == "ref" and fn.nodes[c[0]].get("name") == name and fn.nodes[c[0]].get("dk") == "local":
+            if c and fn.nodes[c[0]]["k"] == "ref" and fn.nodes[c[0]].get("name") == name and fn.nodes[c[0]].get("dk") == "local" and same(fn.nodes[c[0]]):
                 defs.append(None)  # address taken
     _defs_cache[key] = defs
     return defs
@@ -811,17 +815,18 @@ def licensed_edges(fn, want_fn, flag_info=None):
 # ------------------------------------------------------------------------------------------------------------------
 # name-independent description of expressions: where do the values come from?
 
-def all_defs(fn, name):
+def all_defs(fn, name, vid=None):
     """definitions of a local incl. guard acquisitions: list of node ids (rhs of decl/assignment, or the acquiring call itself)"""
-    key = ("alldefs", id(fn), name)
+    key = ("alldefs", id(fn), name, vid)
     if key in _defs_cache:
         return _defs_cache[key]
-    out = [d for d in local_defs(fn, name) if d is not None]
+    out = [d for d in local_defs(fn, name, vid) if d is not None]
     for b, i, e, n in fn.events(live_only=True):
         if n["k"] == "call" and n.get("member"):
             leaf = n.get("callee", "").split("::")[-1]
             c = fn.kids(e)
-            if leaf in ("acquire", "acquire_if_equal") and c and fn.nodes[c[0]]["k"] == "ref" and fn.nodes[c[0]].get("name") == name:
+            if leaf in ("acquire", "acquire_if_equal") and c and fn.nodes[c[0]]["k"] == "ref" and fn.nodes[c[0]].get("name") == name and \
+                    (vid is None or fn.nodes[c[0]].get("vid") in (None, vid)):
                 out.append(e)
     _defs_cache[key] = out
     return out
